@@ -177,6 +177,10 @@ class M3UPlaylistsProvider(backend.PlaylistsProvider):
 
     def _is_in_basedir(self, local_path: Path) -> bool:
         local_path = self._abspath(local_path)
+        if local_path.resolve() == self._playlists_dir.resolve():
+            # The playlists dir itself is not a playlist; writing "to" it
+            # would create the temporary file in its parent directory.
+            return False
         return path.is_path_inside_base_dir(local_path, self._playlists_dir)
 
     def _open(
